@@ -22,6 +22,7 @@
   history note at the end of the sequence section.)
 -/
 import Proofs.NoPanicAke
+import Proofs.Api
 set_option linter.unusedSimpArgs false
 set_option linter.unusedVariables false
 namespace Otr
@@ -32,11 +33,27 @@ macro "triv" : tactic => `(tactic| first | trivial | rfl | assumption)
 /-! ## small invariant lemmas -/
 
 theorem Inv.setVersion {K : Crypto} {c : Conv} (h : Inv K c) (v : Version) : Inv K { c with version := some v } :=
-  ⟨h.smpWF, h.smpNum, h.smpWait, fun he => ⟨by simp, (h.enc he).2⟩, h.ake⟩
+  ⟨h.smpWF, h.smpNum, h.smpWait, fun he => ⟨by simp, (h.enc he).2⟩, h.ake, fun hv => (by cases hv)⟩
+
+/-- the repaired `receiveDecoded` / `receiveFragment` take back the version (and the peer instance) a rejected
+    message had committed the conversation to: harmless when the conversation had a version before, and when it
+    had none provided the conversation is not encrypted and no key exchange is under way -/
+theorem Inv.unbind {K : Crypto} {c : Conv} (h : Inv K c) (v0 : Option Version) (k0 : Option DsaPub) (t : Nat)
+    (hx : v0 = none → c.msgState ≠ .encrypted ∧ ∀ a, c.ake = some a → a.state = .none) :
+    Inv K { c with version := if v0.isNone then none else c.version,
+                   ourCurrentKey := if v0.isNone then k0 else c.ourCurrentKey, theirTag := t } := by
+  cases v0 with
+  | none =>
+    obtain ⟨hm, ha⟩ := hx rfl
+    refine ⟨h.smpWF, h.smpNum, h.smpWait, fun he => absurd he hm, fun a ha' => ?_, fun _ => ha⟩
+    have hs : a.state = .none := ha a ha'
+    rw [hs]
+    trivial
+  | some v => exact h.congr rfl rfl rfl rfl rfl rfl rfl
 
 theorem Inv.setOCK {K : Crypto} {c : Conv} (h : Inv K c) (k : DsaPub) : Inv K { c with ourCurrentKey := some k } :=
   ⟨h.smpWF, h.smpNum, h.smpWait, fun he => ⟨(h.enc he).1, (h.enc he).2.1, by simp, (h.enc he).2.2.2⟩,
-    fun a ha => (h.ake a ha).mono (fun _ => by simp)⟩
+    fun a ha => (h.ake a ha).mono (fun _ => by simp), h.akeVer⟩
 
 /-! ## version commitment, headers -/
 
@@ -122,42 +139,197 @@ theorem checkVersion_inv (K : Crypto) (msg : Bytes) (s : MState) (h : Inv K s.co
 def RecvPost (K : Crypto) (r : Except Err (Option Bytes × List Bytes × Option Err)) (s' : MState) : Prop :=
   Inv K s'.conv ∧ ∀ p ts e, r = .ok (p, ts, e) → ts = [] ∨ s'.conv.version ≠ none
 
-theorem receiveDecoded_inv (K : Crypto) (hK : CryptoOK K) (msg : Bytes) (s : MState) (h : Inv K s.conv) :
-    wp (receiveDecoded K msg) (RecvPost K) NoP s := by
-  unfold receiveDecoded
-  simp only [wp_bind, wp_tryCatch]
-  refine wp_mono _ _ _ _ _ _ (checkVersion_inv K msg s h) ?_ (fun _ hs => hs)
-  rintro r s1 ⟨h1, -, hok1⟩
+/-! frames: parsing a header (committing to a version, adopting instance tags) leaves the message state and
+    the AKE context alone -/
+
+theorem malformedMessage_ctx : Stable AkeCtxFrame malformedMessage := by
+  unfold malformedMessage generatePotentialErrorMessage msgEvent
+  stable []
+
+theorem verifyInstanceTags_ctx (their our : Nat) : Stable AkeCtxFrame (verifyInstanceTags their our) := by
+  unfold verifyInstanceTags msgEvent
+  stable [malformedMessage_ctx]
+
+theorem commitToVersionFrom_ctx (vs : Nat) : Stable AkeCtxFrame (commitToVersionFrom vs) := by
+  unfold commitToVersionFrom setKeyMatchingVersion
+  stable []
+
+theorem checkVersion_ctx (msg : Bytes) : Stable AkeCtxFrame (checkVersion msg) := by
+  unfold checkVersion
+  stable [commitToVersionFrom_ctx]
+
+theorem parseMessageHeader_ctx (msg : Bytes) : Stable AkeCtxFrame (parseMessageHeader msg) := by
+  unfold parseMessageHeader
+  stable [malformedMessage_ctx, verifyInstanceTags_ctx]
+
+theorem parseFragmentPrefix_ctx (data : Bytes) : Stable AkeCtxFrame (parseFragmentPrefix data) := by
+  unfold parseFragmentPrefix
+  stable [commitToVersionFrom_ctx, verifyInstanceTags_ctx]
+
+/-- a `wp` fact together with the run it speaks about -/
+theorem wp_with_run {α} (x : M α) (Q : Except Err α → MState → Prop) (S : String → Prop) (s : MState)
+    (h : wp x Q S s) : wp x (fun r s' => Q r s' ∧ runM x s = .ok (r, s')) S s := by
+  unfold wp at *
+  rw [run'_eq_runM] at *
+  cases hx : runM x s with
+  | panic p => rw [hx] at h; exact h
+  | ok v =>
+    obtain ⟨r, s'⟩ := v
+    rw [hx] at h
+    exact ⟨h, rfl⟩
+
+/-- postcondition of `receiveDecodedCore` from the state `s`: the invariant; a version is set whenever there is
+    something to send; and when the conversation had no version and the message is rejected (an error, or a data
+    message outside a private conversation) there is nothing to send, the conversation is not encrypted and no
+    key exchange is under way — so that `receiveDecoded` may take the version back -/
+def CorePost (K : Crypto) (s : MState)
+    (r : Except Err (Option Bytes × List Bytes × Option Err × Bool)) (s' : MState) : Prop :=
+  Inv K s'.conv ∧ ∀ p ts e rej, r = .ok (p, ts, e, rej) →
+    (ts = [] ∨ s'.conv.version ≠ none) ∧
+    (s.conv.version = none → (e.isSome || rej) = true →
+      ts = [] ∧ s'.conv.msgState ≠ .encrypted ∧ ∀ a, s'.conv.ake = some a → a.state = .none)
+
+theorem receiveDecodedCore_inv (K : Crypto) (hK : CryptoOK K) (msg : Bytes) (s : MState) (h : Inv K s.conv) :
+    wp (receiveDecodedCore K msg) (CorePost K s) NoP s := by
+  -- what a state with the message state and AKE context of `s` satisfies when `s` has no version
+  have hkeep : ∀ s1 : MState, (s1.conv.msgState, s1.conv.ake) = (s.conv.msgState, s.conv.ake) →
+      s.conv.version = none →
+      s1.conv.msgState ≠ .encrypted ∧ ∀ a, s1.conv.ake = some a → a.state = .none := by
+    intro s1 hk hv
+    obtain ⟨hk1, hk2⟩ := Prod.mk.inj hk
+    refine ⟨?_, ?_⟩
+    · rw [hk1]; intro he; exact (h.enc he).1 hv
+    · rw [hk2]; exact h.akeVer hv
+  unfold receiveDecodedCore
+  simp only [wp_bind, wp_getc, wp_tryCatch]
+  refine wp_mono _ _ _ _ _ _ (wp_stable _ _ _ _ _ (checkVersion_inv K msg s h) (checkVersion_ctx msg)) ?_
+    (fun _ hs => hs)
+  rintro r s1 ⟨⟨h1, -, hok1⟩, hk1⟩
   cases r with
   | error e =>
     simp only [wp_pure]
-    exact ⟨h1, fun p ts e he => by cases he; exact Or.inl rfl⟩
+    refine ⟨h1, fun p ts e rej he => ?_⟩
+    cases he
+    exact ⟨Or.inl rfl, fun hv _ => ⟨rfl, hkeep s1 hk1 hv⟩⟩
   | ok u =>
     have hv1 := hok1 ⟨_, rfl⟩
     simp only [wp_pure, wp_bind, wp_tryCatch]
-    refine wp_mono _ _ _ _ _ _ (parseMessageHeader_inv K msg s1 h1 hv1) ?_ (fun _ hs => hs)
-    rintro r s2 ⟨h2, hv2⟩
+    refine wp_mono _ _ _ _ _ _ (wp_stable _ _ _ _ _ (parseMessageHeader_inv K msg s1 h1 hv1)
+      (parseMessageHeader_ctx msg)) ?_ (fun _ hs => hs)
+    rintro r s2 ⟨⟨h2, hv2⟩, hk2⟩
     have hv2' : s2.conv.version ≠ none := by rw [hv2]; exact hv1
+    have hk2' : (s2.conv.msgState, s2.conv.ake) = (s.conv.msgState, s.conv.ake) :=
+      (show _ = _ from hk2).trans hk1
     cases r with
     | error e =>
       simp only [wp_pure]
-      exact ⟨h2, fun p ts e he => Or.inr hv2'⟩
+      refine ⟨h2, fun p ts e rej he => ?_⟩
+      cases he
+      exact ⟨Or.inl rfl, fun hv _ => ⟨rfl, hkeep s2 hk2' hv⟩⟩
     | ok hb =>
       obtain ⟨header, body⟩ := hb
       simp only [wp_pure, wp_ite']
       refine ⟨fun _ => ?_, fun _ => ?_⟩
-      · refine wp_mono _ _ _ _ _ _ (receiveDataMessage_inv K hK.group header body s2 ⟨h2, hv2'⟩) ?_ (fun _ hs => hs)
-        rintro r s3 ⟨⟨h3, hv3⟩, -⟩
-        exact ⟨h3, fun p ts e he => Or.inr hv3⟩
-      · simp only [wp_bind]
-        refine wp_mono _ _ _ _ _ _ (processAKE_inv K hK _ body s2 h2 hv2') ?_ (fun _ hs => hs)
-        rintro r s3 ⟨h3, hv3⟩
+      · -- a data message
+        simp only [wp_bind]
+        by_cases hv : s.conv.version = none
+        · obtain ⟨hm2, ha2⟩ := hkeep s2 hk2' hv
+          refine wp_of_runM _ _ _ _ _ _ (c06_recv_not_encrypted K header body s2 hm2) ?_
+          simp only [wp_pure]
+          refine ⟨h2.congr rfl rfl rfl rfl rfl rfl rfl, fun p ts e rej he => ?_⟩
+          simp only [Except.ok.injEq, Prod.mk.injEq] at he
+          obtain ⟨-, hts, -, -⟩ := he
+          exact ⟨Or.inl hts.symm, fun _ _ => ⟨hts.symm, hm2, ha2⟩⟩
+        · refine wp_mono _ _ _ _ _ _ (receiveDataMessage_inv K hK.group header body s2 ⟨h2, hv2'⟩) ?_
+            (fun _ hs => hs)
+          rintro r s3 ⟨⟨h3, hv3⟩, x, rfl⟩
+          simp only [wp_pure]
+          exact ⟨h3, fun p ts e rej he => ⟨Or.inr hv3, fun hv' => absurd hv' hv⟩⟩
+      · -- an AKE message
+        simp only [wp_bind, wp_getc]
+        refine wp_mono _ _ _ _ _ _ (wp_with_run _ _ _ _ (processAKE_inv K hK _ body s2 h2 hv2')) ?_ (fun _ hs => hs)
+        rintro r s3 ⟨⟨h3, hv3⟩, hrun⟩
         cases r with
-        | error e => exact ⟨h3, fun p ts e he => by cases he⟩
+        | error e => exact ⟨h3, fun p ts e rej he => by cases he⟩
         | ok x =>
           obtain ⟨msgs, err⟩ := x
-          simp only [msgEventErr]
-          wpx <;> exact ⟨h3, fun p ts e he => Or.inr hv3⟩
+          -- without a version no exchange is under way: the message state stays, and the state stays `none`
+          -- when the message is rejected or ignored
+          have hquiet : s.conv.version = none → s3.conv.msgState ≠ .encrypted := by
+            intro hv
+            obtain ⟨hm2, ha2⟩ := hkeep s2 hk2' hv
+            have hst : authStateOf s2.conv = .none := by
+              unfold authStateOf
+              cases hc : s2.conv.ake with
+              | none => rfl
+              | some a => exact ha2 a hc
+            have hq := processAKE_quiet K _ body s2 _ s3 hrun (by
+              rw [hst]
+              rintro (⟨-, hx⟩ | ⟨-, rs, hx⟩) <;> cases hx)
+            unfold quietKept at hq
+            simp only [Prod.mk.injEq] at hq
+            rw [hq.1]; exact hm2
+          have hrej : s.conv.version = none → err.isSome = true →
+              msgs = [] ∧ ∀ a, s3.conv.ake = some a → a.state = .none := by
+            intro hv he
+            obtain ⟨e, rfl⟩ := Option.isSome_iff_exists.1 he
+            exact processAKE_none_rejected K _ body s2 s3 msgs e (hkeep s2 hk2' hv).2 hrun
+          have hign : s.conv.version = none →
+              ((match s3.conv.ake with | some a => a.state.toNat | none => 0) ==
+                (match s2.conv.ake with | some a => a.state.toNat | none => 0)) = true →
+              ∀ a, s3.conv.ake = some a → a.state = .none := by
+            intro hv hk a ha3
+            have h0 : (match s2.conv.ake with | some a => a.state.toNat | none => 0) = 0 := by
+              cases hc : s2.conv.ake with
+              | none => rfl
+              | some a2 => simp only [(hkeep s2 hk2' hv).2 a2 hc]; rfl
+            rw [h0, ha3] at hk
+            have hz : a.state.toNat = 0 := by simpa using hk
+            cases hs : a.state <;> rw [hs] at hz <;> first | rfl | cases hz
+          simp only [msgEventErr, wp_bind, wp_ite', wp_ev, wp_pure, wp_getc]
+          refine ⟨fun _ => ?_, fun _ => ?_⟩
+          all_goals
+            refine ⟨h3, fun p ts e rej he => ?_⟩
+            simp only [Except.ok.injEq, Prod.mk.injEq] at he
+            obtain ⟨-, rfl, rfl, rfl⟩ := he
+            refine ⟨Or.inr hv3, fun hv hc => ?_⟩
+            cases err with
+            | some e =>
+              obtain ⟨q1, q2⟩ := hrej hv rfl
+              exact ⟨q1, hquiet hv, q2⟩
+            | none =>
+              simp only [Option.isSome_none, Option.isNone_none, Bool.false_or, Bool.true_and,
+                Bool.and_eq_true] at hc
+              exact ⟨List.isEmpty_iff.1 hc.1, hquiet hv, hign hv hc.2⟩
+
+theorem receiveDecoded_inv (K : Crypto) (hK : CryptoOK K) (msg : Bytes) (s : MState) (h : Inv K s.conv) :
+    wp (receiveDecoded K msg) (RecvPost K) NoP s := by
+  unfold receiveDecoded
+  simp only [wp_bind, wp_getc]
+  refine wp_mono _ _ _ _ _ _ (receiveDecodedCore_inv K hK msg s h) ?_ (fun _ hs => hs)
+  rintro r s1 ⟨h1, hpost⟩
+  cases r with
+  | error e => exact ⟨h1, fun p ts e he => by cases he⟩
+  | ok x =>
+    obtain ⟨p, ts, err, rej⟩ := x
+    obtain ⟨hts, hextra⟩ := hpost p ts err rej rfl
+    simp only [wp_ite', wp_bind, wp_modc, wp_pure]
+    refine ⟨fun hc => ?_, fun _ => ⟨h1, fun p' ts' e' he => ?_⟩⟩
+    · refine ⟨h1.unbind s.conv.version s.conv.ourCurrentKey s.conv.theirTag (fun hv => (hextra hv hc).2),
+        fun p' ts' e' he => ?_⟩
+      simp only [Except.ok.injEq, Prod.mk.injEq] at he
+      obtain ⟨-, rfl, -⟩ := he
+      cases hv : s.conv.version with
+      | none => exact Or.inl (hextra hv hc).1
+      | some v =>
+        rcases hts with hts | hts
+        · exact Or.inl hts
+        · right
+          show (if (some v).isNone = true then none else s1.conv.version) ≠ none
+          simpa using hts
+    · simp only [Except.ok.injEq, Prod.mk.injEq] at he
+      obtain ⟨-, rfl, -⟩ := he
+      exact hts
 
 /-! ## query, whitespace tag, error, plaintext -/
 
@@ -335,15 +507,31 @@ theorem parseFragmentPrefix_inv (K : Crypto) (data : Bytes) (s : MState) (h : In
 theorem receiveFragment_inv (K : Crypto) (before : FragCtx) (data : Bytes) (s : MState) (h : Inv K s.conv) :
     wp (receiveFragment before data) (fun _ s' => Inv K s'.conv ∧ s'.env = s.env) NoP s := by
   unfold receiveFragment
-  simp only [wp_bind]
-  refine wp_mono _ _ _ _ _ _ (parseFragmentPrefix_inv K data s h) ?_ (fun _ hs => hs)
-  rintro r s1 ⟨h1, he1⟩
+  simp only [wp_bind, wp_getc]
+  refine wp_mono _ _ _ _ _ _ (wp_stable _ _ _ _ _ (parseFragmentPrefix_inv K data s h) (parseFragmentPrefix_ctx data))
+    ?_ (fun _ hs => hs)
+  rintro r s1 ⟨⟨h1, he1⟩, hk1⟩
+  have hun : Inv K { s1.conv with
+      version := if s.conv.version.isNone then none else s1.conv.version,
+      ourCurrentKey := if s.conv.version.isNone then s.conv.ourCurrentKey else s1.conv.ourCurrentKey,
+      theirTag := s.conv.theirTag } := by
+    refine h1.unbind s.conv.version s.conv.ourCurrentKey s.conv.theirTag (fun hv => ?_)
+    obtain ⟨hk1, hk2⟩ := Prod.mk.inj (show (s1.conv.msgState, s1.conv.ake) = (s.conv.msgState, s.conv.ake) from hk1)
+    refine ⟨?_, ?_⟩
+    · rw [hk1]; intro he; exact (h.enc he).1 hv
+    · rw [hk2]; exact h.akeVer hv
   cases r with
   | error e => exact ⟨h1, he1⟩
   | ok x =>
     obtain ⟨body, ignore, ok1⟩ := x
     simp only [msgEvent]
-    wpx <;> exact ⟨h1, he1⟩
+    cases hv0 : s.conv.version with
+    | none =>
+      simp only [hv0, Option.isNone_none, ↓reduceIte] at hun ⊢
+      wpx <;> first | exact ⟨h1, he1⟩ | exact ⟨hun, he1⟩
+    | some v0 =>
+      simp only [hv0, Option.isNone_some, Bool.false_eq_true, ↓reduceIte] at hun ⊢
+      wpx <;> first | exact ⟨h1, he1⟩ | exact ⟨hun, he1⟩
 
 /-! ## `receiveUnit`, `receive` -/
 
@@ -574,19 +762,20 @@ theorem send_inv (K : Crypto) (msg : Bytes) (s : MState) (h : Inv K s.conv) :
 
 theorem Inv.endSession {K : Crypto} {c : Conv} (h : Inv K c) (k : Keys) (x : Option Nat) :
     Inv K { c with lastMessageStateChange := x, ake := none, msgState := .plainText, keys := k } :=
-  ⟨h.smpWF, h.smpNum, h.smpWait, fun he => (by cases he), fun a ha => (by cases ha)⟩
+  ⟨h.smpWF, h.smpNum, h.smpWait, fun he => (by cases he), fun a ha => (by cases ha), fun _ a ha => (by cases ha)⟩
 
 theorem Inv.smpWipe {K : Crypto} {c : Conv} (h : Inv K c) : Inv K { c with smp := {} } :=
-  ⟨by simp [SmpWF], by simp [SmpNumWF], by simp [SmpWaitWF], h.enc, h.ake⟩
+  ⟨by simp [SmpWF], by simp [SmpNumWF], by simp [SmpWaitWF], h.enc, h.ake, h.akeVer⟩
 
 /-- what `endSession` leaves: plaintext, no AKE context, and an SMP context satisfying the invariant -/
 theorem Inv.endSession' {K : Crypto} {c c' : Conv} (h : Inv K c) (hm : c'.msgState = .plainText)
     (ha : c'.ake = none) (hs : c'.smp = c.smp) : Inv K c' := by
-  refine ⟨?_, ?_, ?_, fun he => ?_, fun a ha' => ?_⟩
+  refine ⟨?_, ?_, ?_, fun he => ?_, fun a ha' => ?_, fun _ a ha' => ?_⟩
   · have := h.smpWF; unfold SmpWF at *; rw [hs]; exact this
   · have := h.smpNum; unfold SmpNumWF at *; rw [hs]; exact this
   · have := h.smpWait; unfold SmpWaitWF at *; rw [hs]; exact this
   · rw [hm] at he; cases he
+  · rw [ha] at ha'; cases ha'
   · rw [ha] at ha'; cases ha'
 
 theorem endSession_inv (K : Crypto) (s : MState) (h : Inv K s.conv) :
@@ -614,7 +803,7 @@ theorem endSession_inv (K : Crypto) (s : MState) (h : Inv K s.conv) :
 
 theorem Inv.smpExpect1 {K : Crypto} {c : Conv} (h : Inv K c) :
     Inv K { c with smp := { c.smp with state := some .expect1 } } := by
-  refine ⟨by simp [SmpWF], ?_, by simp [SmpWaitWF], h.enc, h.ake⟩
+  refine ⟨by simp [SmpWF], ?_, by simp [SmpWaitWF], h.enc, h.ake, h.akeVer⟩
   have := h.smpNum
   unfold SmpNumWF at *
   exact this
@@ -760,45 +949,7 @@ theorem useExtraSymmetricKey_inv (K : Crypto) (usage : Nat) (usageData : Bytes) 
 
 /-! ## sequences of API calls -/
 
-/-- the API entry points the driver calls (Otr/DriverConv.lean): `recv`, `send`, `end`, `smpstart`, `smpsecret`,
-    `smpabort`, `extrakey`, the harness hook `sendtlvs` (= `createSerializedDataMessage`), and `setfrag` -/
-inductive ApiCall where
-  | receive (msg : Bytes)
-  | send (msg : Bytes)
-  | endSession
-  | smpStart (question secret : Bytes)
-  | smpSecret (secret : Bytes)
-  | smpAbort
-  | extraKey (usage : Nat) (usageData : Bytes)
-  | sendTlvs (text : Bytes) (flag : Nat) (tlvs : List Tlv)
-  | setFragmentSize (n : Nat)
-
-/-- the model computation of a call (results are dropped: only the state and a possible panic matter) -/
-def ApiCall.run (K : Crypto) : ApiCall → M Unit
-  | .receive m => do let _ ← Otr.receive K m
-  | .send m => do let _ ← Otr.send K m
-  | .endSession => do let _ ← Otr.endSession K
-  | .smpStart q sec => do let _ ← startAuthenticate K q sec
-  | .smpSecret sec => do let _ ← provideAuthenticationSecret K sec
-  | .smpAbort => do let _ ← abortAuthentication K
-  | .extraKey u d => do let _ ← useExtraSymmetricKey K u d
-  | .sendTlvs text flag tlvs => do let _ ← createSerializedDataMessage K text flag tlvs
-  | .setFragmentSize n => modc fun c => { c with fragmentSize := n }
-
-/-- one step of a session: an API call with arbitrary arguments and the per-call environment: the randomness
-    tape (reads may fail or be short), the signing-oracle tape (signing may fail), the clock -/
-structure ApiStep where
-  call : ApiCall
-  env : Env
-
-/-- run a sequence of calls from a conversation: the final conversation, or the first panic.
-    A thrown error keeps the state the call left, and the sequence goes on (as in the driver). -/
-def runApi (K : Crypto) : Conv → List ApiStep → Res Conv
-  | c, [] => .ok c
-  | c, st :: rest =>
-    match runM (st.call.run K) { conv := c, env := st.env } with
-    | .panic site => .panic site
-    | .ok (_, s') => runApi K s'.conv rest
+-- `ApiCall`, `ApiCall.run`, `ApiStep`, `runApi`: Proofs.Api (definitions only, shared with Proofs.Events)
 
 theorem wp_drop {α} (x : M α) (Q : MState → Prop) (s : MState) (h : wp x (fun _ s' => Q s') NoP s) :
     wp (do let _ ← x) (fun _ s' => Q s') NoP s := by
